@@ -277,12 +277,22 @@ block_strategy = st.fixed_dictionaries({
                       min_size=1, max_size=4, unique_by=lambda t: t[0]),
     'rules': st.integers(1, 3),
     'seed': st.integers(0, 2 ** 30),
+    'extra': st.lists(st.sampled_from(range(8)), max_size=2),
+    'where': st.sampled_from(['style', 'style', 'media', 'page', 'margin', 'nested-media']),
 })
+EXTRA_RULES = ['@font-face { font-family: F; src: url(x) }', '@font-face { font-family: F; src: url(x); font-style: sideways }',
+               '@font-face { font-family: F }', '@font-face { font-family: F; src: url(x); font-weight: bolder }',
+               '@page { margin: 1cm }', '@page { margin: red }', '@page :first { @top-left { color: 1px } }', '/* c */ @foo bar;']
 
 
 def check_block(case, ctx):
     decls = '; '.join(f'{n}: {v}' for n, v in case['decls'])
-    text = ' '.join(f'r{i} {{ {decls if i == 0 else "top: 0"} }}' for i in range(case['rules'])) + ' @media print { m { %s } }' % decls
+    where = case.get('where', 'style')
+    first = decls if where in ('style', 'media') else 'top: 0'
+    text = ' '.join(f'r{i} {{ {first if i == 0 else "top: 0"} }}' for i in range(case['rules']))
+    text += {'style': ' @media print { m { top: 0 } }', 'media': ' @media print { m { %s } }' % decls, 'page': ' @page { %s }' % decls,
+             'margin': ' @page { @top-left { %s } }' % decls, 'nested-media': ' @media print { @media tv { m { %s } } }' % decls}[where]
+    text += ' ' + ' '.join(EXTRA_RULES[i] for i in case.get('extra', []))
     saved = cssutils.log.raiseExceptions
     cssutils.log.raiseExceptions = False
     try:
@@ -304,6 +314,28 @@ def check_block(case, ctx):
                         raise Violation('conjunction:rule-valid', f'{r.cssText!r}')
                 if sheet.valid != all(r.valid for r in sheet.cssRules if hasattr(r, 'valid')):
                     raise Violation('conjunction:sheet-valid', f'{text!r}: {sheet.valid}')
+                # ... and iff all its declarations are, wherever they are nested (@font-face: in its own context)
+                every, ff_ok = [], True
+
+                def collect(rules):
+                    nonlocal ff_ok
+                    for r in rules:
+                        if hasattr(r, 'style'):
+                            ps = r.style.getProperties(all=True)
+                            every.extend(ps)
+                            if r.type == r.FONT_FACE_RULE:
+                                names = {p.name for p in ps}
+                                if not {'font-family', 'src'} <= names:
+                                    ff_ok = False
+                                if r.valid != (all(p.valid for p in ps) and {'font-family', 'src'} <= names):
+                                    raise Violation('conjunction:font-face-valid', f'{r.cssText!r}: {r.valid}')
+                        if hasattr(r, 'cssRules') and r.type != r.IMPORT_RULE:
+                            collect(r.cssRules)
+
+                collect(sheet.cssRules)
+                exp = all(p.valid for p in every) and ff_ok
+                if sheet.valid != exp:
+                    raise Violation('conjunction:sheet-valid-nested:' + where, f'{text!r}: sheet.valid {sheet.valid}, declarations {[(p.name, p.valid) for p in every if not p.valid]}')
             v_on = [[p.valid for p in r.style.getProperties(all=True)] for r in on.cssRules if r.type == r.STYLE_RULE]
             v_off = [[p.valid for p in r.style.getProperties(all=True)] for r in off.cssRules if r.type == r.STYLE_RULE]
             if v_on != v_off:
